@@ -151,6 +151,12 @@ StringDictionaryHASHRPF::StringDictionaryHASHRPF(IteratorDictString *it, uint,
 unsigned long StringDictionaryHASHRPF::locate(uchar *str, uint strLen) {
   unsigned long id = NORESULT;
 
+  // Bytes from the end mark upwards occur in no string of the dictionary (and
+  // would be confused with the end mark while comparing)
+  for (uint i = 0; i < strLen; i++)
+    if (str[i] >= rp->maxchar)
+      return id;
+
   size_t hval = bitwisehash(str, strLen, hash->tsize);
   size_t next;
 
